@@ -29,6 +29,18 @@ def lineDelivered (data : VBytes) (peeked : Nat) : Nat :=
     | b :: bs => if b == 10 && i + 1 ≥ peeked then i + 1 else go bs (i + 1)
   min (go data 0) data.length
 
+/-- Incremental `lineDelivered` for a non-decreasing sequence of `peeked` values: the cursor is
+(the data from offset `d` on, `d`) with `d` the previous answer (`(data, 0)` at the start).  While
+`peeked ≤ d` the demanded byte lies in the line that ends at `d`; otherwise the scan resumes at
+`d`.  One pass over the data for all items of a case. -/
+def lineDeliveredFrom (cur : VBytes × Nat) (peeked : Nat) : VBytes × Nat :=
+  if peeked ≤ cur.2 then cur else
+  let rec go (rest : VBytes) (i : Nat) : VBytes × Nat :=
+    match rest with
+    | [] => ([], i)
+    | b :: bs => if b == 10 && i + 1 ≥ peeked then (bs, i + 1) else go bs (i + 1)
+  go cur.1 cur.2
+
 def showHeader (fmt : Format) : Option Header → String
   | none => "H:-"
   | some h => match fmt with
@@ -65,30 +77,38 @@ def runCnfCase (line : String) : String × String :=
     | some k => (full.take k, true)
     | none => (full, false)
   let lr0 := LR.init data fault
-  let at_ (lr : LR) : String := if ls then s!"@{lineDelivered data lr.v.peeked}" else ""
+  -- `@<delivered>` of a one-line-per-read source, with the cursor of `lineDeliveredFrom`
+  let at_ (cur : VBytes × Nat) (lr : LR) : String × (VBytes × Nat) :=
+    if ls then
+      let cur' := lineDeliveredFrom cur lr.v.peeked
+      (s!"@{cur'.2}", cur')
+    else ("", cur)
   if fmtS == "log" then
     match (parseLog l cfg).run lr0 with
     | (.ok log, lr) =>
       let s := match log.satisfiable with | some true => "sat" | some false => "unsat" | none => "none"
-      (joinObs [s!"S:{s}{at_ lr}", shortItem s!"A:{showLits log.assignment}" ++ at_ lr] "END", s!"fmt=log ok=1 lits={log.assignment.length}")
+      let a := (at_ (data, 0) lr).1
+      (joinObs [s!"S:{s}{a}", shortItem s!"A:{showLits log.assignment}" ++ a] "END", s!"fmt=log ok=1 lits={log.assignment.length}")
     | (.error e, _) => (showPErr e, s!"fmt=log err={showPErr e}")
   else
     let fmt := if fmtS == "wcnf" then Format.wcnf else if fmtS == "gcnf" then Format.gcnf else Format.cnf
     match (Parser.new fmt l cfg).run lr0 with
     | (.error e, _) => (showPErr e, s!"fmt={fmtS} hdrerr=1")
     | (.ok p, lr1) =>
+      let (hdrAt, cur1) := at_ (data, 0) lr1
       -- drive clause by clause so that the look-ahead ghost can be reported per item
-      let rec drive (fuel : Nat) (p : Parser) (lr : LR) (acc : List String) : List String × String × Nat :=
+      let rec drive (fuel : Nat) (p : Parser) (lr : LR) (cur : VBytes × Nat) (acc : List String) : List String × String × Nat :=
         match fuel with
         | 0 => (acc.reverse, "E:panic", 0)
         | f + 1 =>
           match (p.nextClause).run lr with
           | (.ok (some c, p'), lr') =>
-            drive f p' lr' ((shortItem s!"C:{c.tag}:{showLits c.lits}" ++ at_ lr') :: acc)
+            let (a, cur') := at_ cur lr'
+            drive f p' lr' cur' ((shortItem s!"C:{c.tag}:{showLits c.lits}" ++ a) :: acc)
           | (.ok (none, _), _) => (acc.reverse, "END", 0)
           | (.error e, _) => (acc.reverse, showPErr e, 1)
-      let (items, fin, _) := drive (data.length + 2) p lr1 []
-      let hdr := showHeader fmt p.header ++ at_ lr1
+      let (items, fin, _) := drive (data.length + 2) p lr1 cur1 []
+      let hdr := showHeader fmt p.header ++ hdrAt
       (joinObs (hdr :: items) fin,
        s!"fmt={fmtS} hdr={b2s p.header.isSome} clauses={items.length} fin={fin.take 5} fault={b2s fault} multiline={b2s (decide (items.length + 2 < (data.filter (· == 10)).length))}")
 
